@@ -5,13 +5,21 @@ package c05
 import (
 	"fmt"
 	"net"
+	"os"
 	"sort"
+	"strings"
 	"sync"
 	"testing"
 	"time"
 
+	"github.com/bokysan/socketace/v2/internal/client/listener"
+	"github.com/bokysan/socketace/v2/internal/client/upstream"
+	clientCmd "github.com/bokysan/socketace/v2/internal/commands/client"
 	"github.com/bokysan/socketace/v2/internal/socketace"
+	"github.com/bokysan/socketace/v2/internal/util/addr"
+	"github.com/bokysan/socketace/v2/internal/util/cert"
 	"github.com/bokysan/socketace/v2/internal/zzverif/vlib"
+	"pgregory.net/rapid"
 )
 
 func TestMain(m *testing.M) {
@@ -266,4 +274,100 @@ func TestUDPSecret(t *testing.T) {
 	}
 }
 
-var _ = net.Dial
+// ---- sequences: one client configuration used for several upstream attempts -----------------------------------------
+
+type seqEntry struct {
+	Carrier    string `json:"carrier"`     // tcp+tls, tcp (StartTLS), https, stdio+tls-dead (a standard-stream attempt that fails)
+	Host       string `json:"host"`        // spelling in the upstream URL
+	ServerCert string `json:"server_cert"` // match, otherhost (valid for the other spelling only), untrusted, expired
+}
+
+func (e seqEntry) admitted() bool { return e.ServerCert == "match" && e.Carrier != "stdio+tls-dead" }
+
+// TestSequencesShareNothing: verification of one upstream must not depend on what was attempted before it with the
+// same client configuration (fallback lists, reconnects to another host, a failed standard-stream attempt).
+func TestSequencesShareNothing(t *testing.T) {
+	rapid.Check(t, func(rt *rapid.T) {
+		n := rapid.IntRange(2, 4).Draw(rt, "entries")
+		var entries []seqEntry
+		for i := 0; i < n; i++ {
+			e := seqEntry{}
+			e.Carrier = []string{vlib.CarTCPTLS, vlib.CarTCPTLS, vlib.CarTCP, vlib.CarHTTPS, "stdio+tls-dead"}[rapid.IntRange(0, 4).Draw(rt, "carrier")]
+			e.Host = []string{"localhost", "127.0.0.1"}[rapid.IntRange(0, 1).Draw(rt, "host")]
+			e.ServerCert = []string{"match", "otherhost", "otherhost", "untrusted", "expired"}[rapid.IntRange(0, 4).Draw(rt, "cert")]
+			entries = append(entries, e)
+		}
+		pki := vlib.GetPKI()
+		var ups []upstream.Upstream
+		var closers []func()
+		defer func() {
+			for _, c := range closers {
+				c()
+			}
+		}()
+		expected := -1
+		for i, e := range entries {
+			if e.Carrier == "stdio+tls-dead" {
+				r, w, _ := os.Pipe()
+				r2, w2, _ := os.Pipe()
+				w.Close() // the attempt reads EOF at once and fails
+				closers = append(closers, func() { r.Close(); r2.Close(); w2.Close() })
+				ups = append(ups, &upstream.InputOutput{Address: addr.MustParseAddress("stdin+tls://"), Input: r, Output: w2})
+				continue
+			}
+			tgt := vlib.NewTarget(fmt.Sprintf("server%d", i), vlib.BannerEchoHandler)
+			other := map[string]string{"localhost": "127.0.0.1", "127.0.0.1": "localhost"}[e.Host]
+			var sc vlib.KeyPair
+			if e.ServerCert == "otherhost" {
+				sc = vlib.ServerCertFor("match", other)
+			} else {
+				sc = vlib.ServerCertFor(e.ServerCert, e.Host)
+			}
+			p, err := vlib.StartPair(vlib.PairConfig{Carrier: e.Carrier, ServerCert: &sc, HostSpelling: e.Host, ClientCA: pki.CA.CertPEM,
+				Channels: []vlib.ChannelSpec{{Name: "data", Target: tgt.URL()}}})
+			if err != nil {
+				tgt.Close()
+				vlib.Rec.Inconclusive("bind")
+				return
+			}
+			closers = append(closers, func() { p.Close(); tgt.Close() })
+			ups = append(ups, p.UpstreamFor())
+			if expected < 0 && e.admitted() {
+				expected = i
+			}
+		}
+		lport := vlib.Port()
+		cli := &clientCmd.Command{
+			ClientConfig: cert.ClientConfig{Config: cert.Config{CaCertificate: pki.CA.CertPEM}},
+			Upstream:     upstream.Upstreams{Data: ups},
+			ListenList: listener.Listeners{&listener.SocketListener{AbstractListener: listener.AbstractListener{ProtoName: addr.ProtoName{Name: "data"},
+				Address: addr.MustParseAddress(fmt.Sprintf("tcp://127.0.0.1:%d", lport))}}},
+			Secure: true,
+		}
+		if err := cli.Startup(make(chan os.Signal, 1)); err != nil {
+			vlib.Rec.Inconclusive("bind")
+			return
+		}
+		defer func() { defer func() { recover() }(); cli.Shutdown() }()
+		c, err := net.DialTimeout("tcp", vlib.HostPort(lport), 5*time.Second)
+		if err != nil {
+			rt.Fatalf("dial listener: %v", err)
+		}
+		defer c.Close()
+		c.SetDeadline(time.Now().Add(15 * time.Second))
+		buf := make([]byte, 64)
+		k, _ := c.Read(buf)
+		got := strings.TrimSpace(string(buf[:k]))
+		want := ""
+		if expected >= 0 {
+			want = fmt.Sprintf("server%d", expected)
+		}
+		desc := map[string]interface{}{"entries": entries, "expected": want, "served_by": got}
+		vlib.Rec.Case(fmt.Sprintf("seq %+v", entries), true, []string{"sequence", fmt.Sprintf("entries:%d", n)}, func() interface{} { return desc })
+		if got != want {
+			msg := fmt.Sprintf("with one client configuration and the upstream list %+v the connection was served by %q, the truth table (each entry judged on its own) says %q", entries, got, want)
+			vlib.Rec.Violation(map[string]interface{}{"property": "C05", "case": desc, "problem": msg})
+			rt.Fatalf("C05 %s", msg)
+		}
+	})
+}
